@@ -32,6 +32,7 @@ type vStoreDocM struct {
 var vC09FaultKinds = []string{"create", "write", "stat", "remove", "openfile", "writestring", "mkdirall", "readdir", "open", "rename"}
 
 type vStoreSys struct {
+	respell  bool // the sessions spell the directory's path differently (vStoreSpellings)
 	c        *vCtx
 	cfg      vStoreCfg
 	cfgS     string
@@ -70,6 +71,10 @@ func (s *vStoreSys) Reset() {
 		s.env.end()
 	}
 	s.env = vStoreBegin(nil, nil)
+	if s.respell {
+		vos.ResetAliases()
+		vos.Alias("/alias-of-the-store-directory", vStoreDir)
+	}
 	s.live = map[uint32]*vStoreDocM{}
 	s.removed = map[uint32]bool{}
 	s.remAt = map[uint32]int{}
@@ -286,8 +291,27 @@ func vC09DirNames(c *vCtx) {
 			c.Nontrivial(s.cfgS)
 		}
 	}
+	// one directory, another spelling of its path in every session
+	vStoreDir = old
+	vStoreSpellings = []string{old, "/alias-of-the-store-directory", old + "/../" + old[1:], "/alias-of-the-store-directory/"}
+	defer func() { vStoreSpellings = nil }()
+	for _, cfg := range []vStoreCfg{{Mem: 2, Thr: 1, Comp: 1000000, Tmpl: "vtm", Vec: "flat"}, {Mem: 0, Thr: 0, Comp: 1000000, Tmpl: "v", Vec: "flat"}} {
+		s := &vStoreSys{c: c, cfg: cfg, cfgS: fmt.Sprintf("c09 %s dir=respelled-every-session", cfg.String()), mode: "c09", maxAdd: 4, maxSess: 4, respell: true}
+		s.Reset()
+		for i, op := range hist {
+			s.Apply(op, hist[:i], true)
+			c.Transitions++
+		}
+		if s.env != nil {
+			s.env.end()
+			s.env = nil
+		}
+		c.Traces++
+		c.NewState(s.cfgS)
+		c.Nontrivial(s.cfgS)
+	}
 	c.Sample(fmt.Sprintf("base directory names %q", vStoreDirNames))
-	c.Bound = fmt.Sprintf("%d directory names x 2 configurations x one 3-session history", len(vStoreDirNames))
+	c.Bound = fmt.Sprintf("%d directory names x 2 configurations x one 3-session history; one directory spelled in 4 ways", len(vStoreDirNames))
 }
 
 func (s *vStoreSys) decodes() int { return vSegmentDecodes(s.env.fs) }
